@@ -40,6 +40,8 @@ var (
 type gettyClientHandler struct {
 	idGenerator  *atomic.Uint32
 	processorMap map[message.MessageType]processor.RemotingProcessor
+	// (processors are registered while sessions that are open already deliver messages)
+	processorLock sync.RWMutex
 }
 
 func GetGettyClientHandlerInstance() *gettyClientHandler {
@@ -120,7 +122,9 @@ func (g *gettyClientHandler) OnMessage(session getty.Session, pkg interface{}) {
 	}
 
 	if mm, ok := rpcMessage.Body.(message.MessageTypeAware); ok {
+		g.processorLock.RLock()
 		processor := g.processorMap[mm.GetTypeCode()]
+		g.processorLock.RUnlock()
 		if processor != nil {
 			processor.Process(ctx, rpcMessage)
 		} else {
@@ -164,6 +168,8 @@ func (g *gettyClientHandler) transferHeartBeat(session getty.Session, msg messag
 
 func (g *gettyClientHandler) RegisterProcessor(msgType message.MessageType, processor processor.RemotingProcessor) {
 	if nil != processor {
+		g.processorLock.Lock()
 		g.processorMap[msgType] = processor
+		g.processorLock.Unlock()
 	}
 }
